@@ -1,6 +1,8 @@
 package main
 
 import (
+	"path/filepath"
+	"os"
 	"strconv"
 	"fmt"
 	"strings"
@@ -16,6 +18,18 @@ func checkC15(ctx *Ctx) {
 		per = 5000
 	}
 	odd := []string{"", " ", "-", "--help", "-1", "\"", "'1.0'", "1.0 2.0", "a b", "\t1.0", "1.0\n", "*", "vers:npm/>=1.0.0", "%d", "\\", "not a version!!"}
+	// arguments that NAME things of the outside world: existing files holding versions (as a bare
+	// path, as an @response-file, with file: and < prefixes), an environment variable reference, a
+	// glob.  The CLI's answer is a function of the argument TEXTS (the library is): such an
+	// argument is an ordinary text to it.
+	if dir, err := os.MkdirTemp("", "verif-c15-"); err == nil {
+		defer os.RemoveAll(dir)
+		f1 := filepath.Join(dir, "versions.txt")
+		f2 := filepath.Join(dir, "two")
+		os.WriteFile(f1, []byte("1.0.0\n2.0.0\n1.5.0\n"), 0o644)
+		os.WriteFile(f2, []byte("1.0.0\n2.0.0"), 0o644)
+		odd = append(odd, "@"+f1, "@"+f2, f1, "file:"+f1, "<"+f1, "@/dev/null", "$HOME", "${PATH}", "~", dir+"/*", "@", "@@", "@1.0.0")
+	}
 	var cases [][]string
 	seen := map[string]bool{}
 	add := func(av []string) {
